@@ -284,7 +284,6 @@ def run_sj(case: dict, v: dict) -> dict:
         "ret": ret, "realized": w.realized, "grown": grown,
         **({"mid2": mid2} if mid2 is not None else {}),
         "nopb": list(nop or b""), "encb": list(enc or b""),
-        "want": [[sp["k"], sp["o"], sp["s"]] for sp in case["blocks"]],
     }
 
 
